@@ -10,10 +10,6 @@ pub type Protocol = i32;
 //@include netmodel.rs
 pub broadcast axiom fn axiom_ip_text_small(ip: IpAddr)
     ensures #[trigger] encode_utf8(ip_text(ip)).len() <= 45;
-impl IpAddr {
-    #[verifier::external_body]
-    pub fn to_string(&self) -> (r: String) ensures r@ == ip_text(*self) { unimplemented!() }
-}
 
 // ------------------------------------------------------------------ opaque external values
 pub struct ServerStatus {}
